@@ -14,7 +14,7 @@ from cardutil.cli import mci_ipm_param_to_csv
 LEVEL = 'exploration'
 EXHAUSTIVE = False
 TECHNIQUE = 'Hypothesis-generated synthetic extract files (index, trailer, interleaved rows of wanted and look-alike foreign tables) in compressed and expanded form, compared with an independent slicing of the generated rows; CSV output parsed back; refusal cases'
-RULE = ('Synthetic extract files: an IP0000T1 index with random distinct 3-character sub-ids (tables without rows, foreign tables '
+RULE = ('Synthetic extract files: an IP0000T1 index with random distinct 3-character sub-ids (a table may be listed under several of them; tables without rows, foreign tables '
         'whose ids differ from the wanted one only in the last one or two characters), the index trailer, then rows of all tables '
         'interleaved in random order with TRAILER RECORD lines between them; every row rendered both expanded (10-char timestamp, '
         'code, table id, body) and compressed (7-char timestamp, code, sub-id, same body); every packaged table and generated '
@@ -74,9 +74,15 @@ def extract_files(draw, tier):
         t = look_alike(wanted, draw)
         if t not in tables and t != 'IP0000T1':
             tables.append(t)
+    # a table may be listed under several sub-ids (the index maps sub-id -> table)
+    owners = list(tables) + [draw(st.sampled_from(tables)) for _ in range(draw(st.sampled_from([0, 0, 1, 2, 3])))]
     subids = draw(st.lists(st.text(alphabet='0123456789ABCDEFGHIJKLMNOPQRSTUVWXYZ', min_size=3, max_size=3).filter(lambda s: s != 'REC'),
-                           min_size=len(tables), max_size=len(tables), unique=True))
-    index = dict(zip(tables, subids))
+                           min_size=len(owners), max_size=len(owners), unique=True))
+    order = draw(st.permutations(list(range(len(owners)))))
+    index = [(subids[i], owners[i]) for i in order]          # file order of the index records
+    subs_of = {}
+    for sub, t in index:
+        subs_of.setdefault(t, []).append(sub)
     maxend = max([v['end'] for v in layout.values()] + [60])
     rows = []
     nrows = draw(st.one_of(uniform(0, 6), uniform(2, 25)))
@@ -87,7 +93,7 @@ def extract_files(draw, tier):
         blen = draw(st.one_of(st.just(maxend - 19 + 3), uniform(0, maxend - 19 + 10)))
         seedtxt = draw(st.text(alphabet=alpha, min_size=1, max_size=16))
         body = (seedtxt * (blen // len(seedtxt) + 1))[:blen]
-        rows.append((t, ts, code, body))
+        rows.append((t, ts, code, body, draw(st.sampled_from(subs_of[t]))))
     trailers_at = draw(st.lists(uniform(0, max(0, nrows)), max_size=3))
     blocked = draw(st.booleans())
     empty_tables = [t for t in tables if not any(r[0] == t for r in rows)]
@@ -99,14 +105,14 @@ def build(case, expanded, with_trailer=True):
     """returns (file bytes, expected list of dicts)"""
     codec = case['codec']
     recs = []
-    for i, (t, sub) in enumerate(case['index'].items()):
+    for i, (sub, t) in enumerate(case['index']):
         r = ('2024%03d' % i) + 'A' + '   ' + 'IP0000T1' + t
         r = r.ljust(243) + sub + ' ' * 10
         recs.append(r)
     if with_trailer:
         recs.append('TRAILER RECORD IP0000T1  RECORD COUNT %08d' % len(case['index']))
     expected = []
-    for i, (t, ts, code, body) in enumerate(case['rows']):
+    for i, (t, ts, code, body, sub) in enumerate(case['rows']):
         if i in case['trailers_at']:
             recs.append('TRAILER RECORD %s  RECORD COUNT 00000001' % t)
         xrow = ts + code + t + body
@@ -114,7 +120,7 @@ def build(case, expanded, with_trailer=True):
             recs.append(xrow)
             stamp = ts
         else:
-            recs.append(ts[:7] + code + case['index'][t] + body)
+            recs.append(ts[:7] + code + sub + body)
             stamp = ts[:7]
         if t == case['wanted']:
             d = {'table_id': t, 'effective_timestamp': stamp, 'active_inactive_code': code}
@@ -212,11 +218,12 @@ def hyp_extracts(ctx, n):
         foreign_between = len(wanted_rows) >= 2 and any(r[0] != case['wanted'] for r in case['rows'][wanted_rows[0]:wanted_rows[-1]])
         ctx.case(key=harness.digest({k: v for k, v in case.items()}), nontrivial=foreign_between,
                  labels=['extract', 'blocked' if case['blocked'] else 'vbs', 'layout:generated' if case['param_config'] else 'layout:packaged',
-                         'codec:' + case['codec'], 'has-look-alike-table' if len(case['index']) > 1 else 'single-table',
+                         'codec:' + case['codec'], 'has-look-alike-table' if len({t for _, t in case['index']}) > 1 else 'single-table',
+                         'table-under-several-sub-ids' if len(case['index']) > len({t for _, t in case['index']}) else 'one-sub-id-per-table',
                          'has-empty-table' if case['empty_tables'] else 'all-tables-have-rows'])
         if len(ctx.samples) < 4 and foreign_between:
             ctx.sample({'codec': case['codec'], 'wanted': case['wanted'], 'index': case['index'], 'blocked': case['blocked'],
-                        'rows': [(t, ts, code, body[:24]) for t, ts, code, body in case['rows'][:6]]})
+                        'rows': [(t, ts, code, body[:24], sub) for t, ts, code, body, sub in case['rows'][:6]]})
         res = check(case) or check_refusals(case)
         if res:
             ctx.fail(res[0], case, res[1])
@@ -232,4 +239,5 @@ def tasks(tier, seed):
 def replay(case):
     case = dict(case)
     case['rows'] = [tuple(r) for r in case['rows']]
+    case['index'] = [tuple(x) for x in case['index']]
     return check(case) or check_refusals(case)
